@@ -27,12 +27,12 @@ var pidTokens = []string{"1", "7", "25007", "4194304", "2147483647"}
 
 // ---------------- C06 ----------------
 
-func c06Corpus(tier string, seed int64) []vlib.SshCase {
+func c06Corpus(tier string, seed int64) *vlib.SshCorpusT {
 	n := 120000
 	if tier == "thorough" {
 		n = 3000000
 	}
-	return vlib.SshCorpus(seed, "C06", n, vlib.SshForms)
+	return vlib.NewSshCorpus(seed, "C06", n, vlib.SshForms)
 }
 
 func childC06(args []string) {
@@ -46,8 +46,8 @@ func childC06(args []string) {
 	cctx, ccancel := context.WithCancel(context.Background())
 	ccancel()
 	ctx := context.Background()
-	for i := from; i < to && i < len(corpus); i++ {
-		c := corpus[i]
+	for i := from; i < to && i < corpus.Len(); i++ {
+		c := corpus.At(i)
 		pid := pidTokens[i%len(pidTokens)]
 		out.begin(i, c.Msg)
 		var o sshObs
@@ -87,7 +87,7 @@ func childC06(args []string) {
 }
 
 func checkC06(r *vlib.Run) int {
-	n := len(c06Corpus(r.Tier, r.Seed))
+	n := c06Corpus(r.Tier, r.Seed).Len()
 	res := runChildren(r, "mon", "c06", n, (n+47)/48, 10*time.Minute)
 	forms := map[string]int{}
 	for k, v := range res.stats {
@@ -111,7 +111,7 @@ func childC19(args []string) {
 	tier, seed, from, to, out, _ := childArgs(args)
 	defer out.finish()
 	corpus := c06Corpus(tier, seed)
-	nValid := len(corpus)
+	nValid := corpus.Len()
 	h := newSshHarness(8)
 	// second harness: cancelled context, nobody receives logins - an emitted
 	// event must be counted all the same
@@ -123,7 +123,7 @@ func childC19(args []string) {
 		var pid, msg, form string
 		accepted := false
 		if i < nValid {
-			c := corpus[i]
+			c := corpus.At(i)
 			pid, msg, form = pidTokens[i%len(pidTokens)], c.Msg, c.Form
 			accepted = c.Accepted
 		} else {
@@ -193,7 +193,7 @@ func childC19(args []string) {
 }
 
 func checkC19(r *vlib.Run) int {
-	nValid := len(c06Corpus(r.Tier, r.Seed))
+	nValid := c06Corpus(r.Tier, r.Seed).Len()
 	nHost := r.Pick(30000, 1500000)
 	if !r.Thorough() {
 		nValid = 120000
